@@ -3,6 +3,7 @@ import re
 from cfg import cfg_of
 from flow import Taint, Tracker, backward, callee_matches, field_reads, op_local, prep
 from rules import CallGuard, CallSink, CmpGuard, RetSink, AggSink, compare_sites
+from rules import PL
 from props.C03 import PV, PUT, param_seeds
 from props.C04 import call_results, agg_field_operands, TRK
 
@@ -49,7 +50,7 @@ def run(R):
         def new_counts(b):
             ta = Taint(b)
             # the parameter only (not things derived from the local copy)
-            seeds = {l for l in ta.var_locals("scratchpad") if l != 1}
+            seeds = PL(b, 1)  # the `scratchpad` parameter (position 1, after self)
             tt = Taint(b)
             src = tt.closure(seeds)
             out = set()
@@ -70,7 +71,7 @@ def run(R):
         ok = bool(glr) and all(op_local(b["term"]["args"][1]) in keys for b in glr)
         # what is stored is the validated scratchpad
         vals = agg_field_operands(pad, "libp2p_kad::record::Record", "value")
-        src = ta.closure({l for l in Taint(pad).var_locals("scratchpad") if l != 1})
+        src = ta.closure(PL(pad, 1))
         ok2 = bool(vals) and all(op_local(o) in src for _, _, o in vals)
         if not (ok and ok2):
             R.viol("C07.pad.same", "pad-identity", "the counter check / the stored value do not concern the scratchpad presented under this key", pad, pad.lines[0])
@@ -96,7 +97,7 @@ def run(R):
             return out
         vals = agg_field_operands(tx, "libp2p_kad::record::Record", "value")
         ta = Taint(tx, through="all")
-        inp = {l for l in Taint(tx).var_locals("transactions") if l != 1}
+        inp = PL(tx, 1)  # the `transactions` parameter
         full = ta.closure(inp)
         detail = {}
         if ok and vals:
@@ -149,12 +150,7 @@ def run(R):
         # the Some reached when present_locally holds the verified merge
         present = CallGuard([], ("true",), "present_locally")
         tr = Tracker(rv)
-        for l in Taint(rv).var_locals("present_locally"):
-            if l != 1:
-                tr.seed_bool(l, True)
-        # present_locally is a captured argument: seed reads of the capture as well
-        from props.C15 import _upvar_reads
-        for l in _upvar_reads(rv, "present_locally"):
+        for l in PL(rv, 2):  # the `present_locally` parameter (self, register, present_locally)
             tr.seed_bool(l, True)
         tr.run()
         ok = bool(tr.accept)
